@@ -133,7 +133,9 @@ let handle_solve line =
     if finite_vec x && List.length x = n && not (finite_vec u) && m > 0 then begin
       (* solve_with_inequality returned before the first iteration: the start was not strictly feasible *)
       let mg = float_of_q (vmaxc (gxh pn (qvec x))) in
-      if fabs mg <= 1e-13 then incr ambiguous
+      (* the sign of max(G'x0-h') is rounding when it is below 1e-12 of the summed terms (default starts of size 1e16 occur) *)
+      let tg = List.fold_left2 (fun s g h -> Float.max s ((fdot_abs g x +. fabs h) /. dG)) 0.0 fG fh in
+      if fabs mg <= 1e-13 +. 1e-12 *. tg then incr ambiguous
       else begin
         incr decisions;
         let dec = start_unfeasible_dec pn (qvec x) in
@@ -178,8 +180,13 @@ let handle_solve line =
         let nrm l = sqrt (List.fold_left (fun s t -> s +. t *. t) 0.0 l) in
         let near a b = fabs (a -. b) <= 1e-9 *. b in
         let neq = sqrt (Float.max 0.0 (float_of_q (sumsq r.r_rprim))) and mg = float_of_q (vmaxc (gxh pn qx)) in
-        let band a = fabs (a -. !feps2) <= 1e-3 *. !feps2 in
-        if near eta !feps || near (nrm rdual) !feps || near (nrm rprim) !feps || (p > 0 && band neq) || band mg then incr ambiguous
+        (* a comparison with epsilon2 is ambiguous when the two sides differ by less than 0.1% of epsilon2 or by less than
+           1e-12 of the magnitude of the summed terms (the implementation evaluates G'x-h' / A'x-b' in doubles: at a point
+           of size 1e15 the sign of a cancelling sum is rounding) *)
+        let tg = List.fold_left2 (fun s g h -> Float.max s ((fdot_abs g x +. fabs h) /. dG)) 0.0 fG fh in
+        let ta = sqrt (List.fold_left2 (fun s a b -> let t = (fdot_abs a x +. fabs b) /. dA in s +. t *. t) 0.0 fAr fbr) in
+        let band a terms = fabs (a -. !feps2) <= 1e-3 *. !feps2 +. 1e-12 *. terms in
+        if near eta !feps || near (nrm rdual) !feps || near (nrm rprim) !feps || (p > 0 && band neq ta) || band mg tg then incr ambiguous
         else begin
           incr decisions;
           if B.int_of_big_int r.r_status <> status then
@@ -192,8 +199,13 @@ let handle_solve line =
       if status = 1 then begin
         let inf l = List.fold_left (fun s t -> Float.max s (fabs t)) 0.0 l in
         let ta = q_of_float 1e-6 */ (q_of_int 1 +/ q_of_float (inf fb)) and tg = q_of_float 1e-6 */ (q_of_int 1 +/ q_of_float (inf fh)) in
-        let okA = List.for_all (fun t -> qle (qabs t) ta) (vsub (mv user.pA qx) user.pb)
-        and okG = List.for_all (fun t -> qle t tg) (vsub (mv user.pG qx) user.ph) in
+        (* rows whose deviation is below 2^-44 of their own terms are the defect candidate `converged at a huge point`
+           (the harness prints the CAND line), not a failure of the feasibility logic *)
+        let r44 = { qnum = B.unit_big_int; qden = B.shift_left_big_int B.unit_big_int 44 } in
+        let okrow tol row rhs dev = qle dev tol || qle dev (r44 */ q_of_float (fdot_abs row x +. fabs rhs)) in
+        let rec all3 f a b c = match a, b, c with x :: a, y :: b, z :: c -> f x y z && all3 f a b c | _ -> true in
+        let okA = all3 (fun row rhs t -> okrow ta row rhs (qabs t)) fA fb (vsub (mv user.pA qx) user.pb)
+        and okG = all3 (fun row rhs t -> okrow tg row rhs t) fG fh (vsub (mv user.pG qx) user.ph) in
         if not (okA && okG) then report "PROPFAIL" "feasibility" id (Printf.sprintf "equalities_ok=%b inequalities_ok=%b" okA okG)
       end
     end
